@@ -202,27 +202,38 @@ Definition vm_index (a : list text) (v : jv) : res Z :=
   | _ => Err EKey
   end.
 
-(* Node._compress_entry: the loop body over the snapshot list(data.items()) *)
-Definition compress_step (km : list (text * text)) (vm : list (text * list text))
+(* One iteration of the loops in Node._compress_entry and Tree._uncompress_entry
+   (over the snapshot list(data.items())): rename the key ([data[new] = data.pop(key)]),
+   then optionally replace the value under the new key.
+   [ren key] = the new key if the key is mapped; [conv key new_key value] = the
+   replacement value, if any. *)
+Definition remap_step (ren : text -> option text) (conv : text -> text -> jv -> res (option jv))
            (acc : res dict) (kv : text * jv) : res dict :=
   match acc with
   | Err e => Err e
   | Ok d =>
       let key := fst kv in
       let value := snd kv in
-      let sd := match assoc_t key km with
-                | Some sk => (sk, dset sk (match dget key d with Some v => v | None => JNull end) (dpop key d))
+      let nd := match ren key with
+                | Some nk => (nk, dset nk (match dget key d with Some v => v | None => JNull end) (dpop key d))
                 | None => (key, d)
                 end in
-      match assoc_t key vm with
-      | Some a => match vm_index a value with
-                  | Ok i => Ok (dset (fst sd) (JInt i) (snd sd))
-                  | Err e => Err e
-                  end
-      | None => Ok (snd sd)
+      match conv key (fst nd) value with
+      | Ok (Some v') => Ok (dset (fst nd) v' (snd nd))
+      | Ok None => Ok (snd nd)
+      | Err e => Err e
       end
   end.
-Definition compress_dict km vm (d : dict) : res dict := fold_left (compress_step km vm) d (Ok d).
+Definition remap_dict ren conv (d : dict) : res dict := fold_left (remap_step ren conv) d (Ok d).
+
+(* Node._compress_entry *)
+Definition compress_conv (vm : list (text * list text)) (key _nk : text) (value : jv) : res (option jv) :=
+  match assoc_t key vm with
+  | Some a => match vm_index a value with Ok i => Ok (Some (JInt i)) | Err e => Err e end
+  | None => Ok None
+  end.
+Definition compress_dict (km : list (text * text)) (vm : list (text * list text)) (d : dict) : res dict :=
+  remap_dict (fun k => assoc_t k km) (compress_conv vm) d.
 Definition compress_entry km vm (data : jv) : res jv :=
   match data with
   | JDict d => match compress_dict km vm d with Ok d' => Ok (JDict d') | Err e => Err e end
@@ -358,29 +369,19 @@ Definition py_index {X} (l : list X) (z : Z) : option X :=
   if (0 <=? z)%Z then nth_error l (Z.to_nat z)
   else if (0 <=? n + z)%Z then nth_error l (Z.to_nat (n + z)) else None.
 
-(* Tree._uncompress_entry loop body; [vmj] is the raw "$value_map" object *)
-Definition uncompress_step (ikm : list (text * text)) (vmj : dict)
-           (acc : res dict) (kv : text * jv) : res dict :=
-  match acc with
-  | Err e => Err e
-  | Ok d =>
-      let key := fst kv in
-      let value := snd kv in
-      let ld := match assoc_t key ikm with
-                | Some lk => (lk, dset lk (match dget key d with Some v => v | None => JNull end) (dpop key d))
-                | None => (key, d)
-                end in
-      match is_intlike value, dget (fst ld) vmj with
-      | Some z, Some (JList a) =>
-          match py_index a z with
-          | Some v => Ok (dset (fst ld) v (snd ld))
-          | None => Err EIndex
-          end
-      | Some _, Some _ => Err ECrash        (* value list is not a list: outside the modelled domain *)
-      | _, _ => Ok (snd ld)
+(* Tree._uncompress_entry; [vmj] is the raw "$value_map" object *)
+Definition uncompress_conv (vmj : dict) (_key lk : text) (value : jv) : res (option jv) :=
+  match is_intlike value, dget lk vmj with
+  | Some z, Some (JList a) =>
+      match py_index a z with
+      | Some v => Ok (Some v)
+      | None => Err EIndex
       end
+  | Some _, Some _ => Err ECrash        (* value list is not a list: outside the modelled domain *)
+  | _, _ => Ok None
   end.
-Definition uncompress_dict ikm vmj (d : dict) : res dict := fold_left (uncompress_step ikm vmj) d (Ok d).
+Definition uncompress_dict (ikm : list (text * text)) (vmj : dict) (d : dict) : res dict :=
+  remap_dict (fun k => assoc_t k ikm) (uncompress_conv vmj) d.
 
 (* {v: k for k, v in key_map.items()} : later entries win, so look up in the reversed list *)
 Definition inverse_key_map (kmj : dict) : list (text * text) :=
@@ -445,7 +446,8 @@ Fixpoint unflat (fuel : nat) (es : list lnode) (p : nat) : forest :=
 
 Section Reader.
   Variable c : cls.
-  Variable deser : dict -> res dval.              (* the deserialize mapper *)
+  Variable deser : nat -> dict -> res dval.       (* the deserialize mapper, called for entry #idx:
+                                                     rebuilt objects may differ per call (identity hashes) *)
   Variable shash : text -> Z.                     (* hash() of a str *)
 
   Definition default_kind : kind := if is_typed c then Some DEFAULT_CHILD_TYPE else None.
@@ -496,7 +498,7 @@ Section Reader.
                           end in
                 match k, di with
                 | Ok k, Ok di =>
-                    match deser d with
+                    match deser idx d with
                     | Err e => Err e
                     | Ok dv =>
                         add_node es idx p
@@ -581,9 +583,9 @@ End Reader.
 
 (* default mappers *)
 Definition default_ser : info -> dict -> dict := fun _ d => d.       (* Tree.serialize_mapper *)
-Definition default_deser_plain : dict -> res dval := fun _ => Err ENotImpl.
+Definition default_deser_plain : nat -> dict -> res dval := fun _ _ => Err ENotImpl.
 (* TypedTree.deserialize_mapper *)
-Definition default_deser_typed (shash : text -> Z) (d : dict) : res dval :=
+Definition default_deser_typed (shash : text -> Z) (_idx : nat) (d : dict) : res dval :=
   match dget k_str d with
   | Some v =>
       if forallb (fun kv => text_eqb (fst kv) k_str || text_eqb (fst kv) k_kind || text_eqb (fst kv) k_data_id) d
@@ -594,7 +596,7 @@ Definition default_deser_typed (shash : text -> Z) (d : dict) : res dval :=
       else Err ENotImpl
   | None => Err ENotImpl
   end.
-Definition default_deser (c : cls) (shash : text -> Z) : dict -> res dval :=
+Definition default_deser (c : cls) (shash : text -> Z) : nat -> dict -> res dval :=
   if is_typed c then default_deser_typed shash else default_deser_plain.
 
 (* what is observed of a loaded tree *)
